@@ -24,7 +24,7 @@ SIMPL = "quil_rs::expression::simplification::by_hand::Simplifier"
 
 
 def run(ctx):
-    res = Result("C12", level="proof")
+    res = Result("C12", level="other")  # one rule (0^y) is a known non-identity, so "all obligations discharged" cannot be claimed
     db = ctx.db("quil_rs")
     syn = ctx.syn()
     res.rules += ["K9: each rewrite arm x operator instance of the simplifier is an algebraic identity (sympy), candidates introduce no symbols, PiConstant never constructed"]
@@ -189,13 +189,13 @@ def run(ctx):
     res.count("simplifier_reachable_functions", len(local), floor=8)
 
     res.obligations = obligations
-    res.discharged = discharged - 0
     res.undecided = undecided
     res.count("obligations", obligations, floor=55)
     res.count("vacuous_instances", vacuous)
     res.count("undecided_instances", len(undecided))
     # discharged must equal obligations for the proof claim: violations are findings
     res.discharged = obligations - sum(1 for f_ in res.findings if f_.key.startswith("K9|") or f_.key.startswith("K6|"))
+    res.count("discharged", res.discharged)
     res.trusted_base = ["sympy (simplify/cancel/together/expand) as the decision procedure for rational identities", "qsyn extraction of match arms + the K9 interpreter (qv/rules/k9_rewrite.py)", "induction hypothesis: recursive simplify calls are value preserving; smaller(a,b) returns a or b", "num_complex arithmetic implements the field operations"]
     res.explanation = (
         "Rule-table soundness by algebra: %d obligations (arm x operator instance x candidate) extracted from the un-expanded source of simplify_infix / simplify_prefix / simplify_function_call / simplify; "
